@@ -812,6 +812,8 @@ impl TypeLayout {
             TypeLayout::Void => false,
             // the interpreter cannot compare maps (`GcMap::eq`), nor lists / optionals holding one
             _ if me.contains_map() => false,
+            // a present optional is compared as the value it holds
+            TypeLayout::Optional(Some(inner)) => inner.supports_equ(),
             _ => true,
         }
     }
